@@ -29,7 +29,7 @@ CHECKS = {
               "source set of the corpus (synthetic xsd sets with cycles, a hub of back-references, two namespaces, same-named classes from differently named files, each under all 5 structure styles; upstream "
               "xsd / dtd / wsdl / xml / json fixtures) every choice vector with <= 1 (thorough 2) non-default answers must produce byte-identical files to the canonical-order run; results of set algebra "
               "and the toposort stand-in are owned too. Real PYTHONHASHSEED 0..3 (thorough 0..31) in fresh processes validates the owned model and covers sets built in C; generating twice in one "
-              "process, every ordered pair of 4 naming-convention sets run one after the other in one process (second run vs a pristine interpreter), and API vs config-file vs CLI-flag routes for 13 "
+              "process (also with the cache of parsed classes: the run that writes it and the run that reads it; and from another working directory that holds decoy files under the names the sources use for each other), every ordered pair of 4 naming-convention sets run one after the other in one process (second run vs a pristine interpreter), and API vs config-file vs CLI-flag routes for 13 "
               "option deviations are compared byte for byte."),
         note="stand-ins for jinja2/click/toposort/ruff (shims/, conformance-checked against upstream fixtures); bytes compared before ruff; include_header excluded"),
     "C10": dict(
@@ -97,7 +97,9 @@ CHECKS = {
               "lookups, wildcard namespace memo, parse vs serialize, module import changing len(sys.modules)) are run under every schedule with <= 2 preemptions "
               "(thorough: <= 3, plus 3-thread harnesses with <= 2). Scheduling points are the executed lines that read or write shared mutable state: the attribute "
               "set is found by a dynamic write profile (canonical hash of the shared roots after every line, run per operation alone and after every operation it can meet) and the lines by an AST scan "
-              "of the current tree, so state added by an edit is picked up; a static site offers a preemption at its first 3 dynamic occurrences per thread. Oracle: every call's result equals its result when run alone, and the shared objects still work afterwards."),
+              "of the current tree, so state added by an edit is picked up; a static site offers a preemption at its first 3 dynamic occurrences per thread. Process-wide state of the tree (module globals, class attributes, module-level instances, "
+              "attributes added to the model classes, lru_caches) is found by a walk, watched by the same profile and restored to its after-import contents before every execution, so the threads "
+              "start in a process that has used nothing. Oracle: every call's result equals its result when run alone, and the shared objects still work afterwards."),
         note="line granularity (no preemption between bytecodes of one line); steps on thread-local state commute; >3 threads / >3 preemptions outside the bound"),
     "C04": dict(
         category="exploration", engine="E1+E4", design_ref="DESIGN.md 2.1, 2.4, 2.5, 3/C04",
@@ -110,7 +112,8 @@ CHECKS = {
     "C18": dict(
         category="exploration", engine="E1", design_ref="DESIGN.md 2.1, 2.5, 3/C18",
         technique="bounded-exhaustive enumeration of generated models x instances; rendered source exec'd in an empty namespace",
-        text=("Every G-model binding model within the bound (incl. inner classes/enums, frozen+tuples, generics, attribute maps) x full product of value alphabets: "
+        text=("Every G-model binding model within the bound (incl. inner classes/enums, frozen+tuples, generics, attribute maps, required fields holding None) x full product of value alphabets "
+              "x {fresh serializer, serializer that has just rendered the same values as an instance of a same-named class with other defaults from another module}: "
               "PycodeSerializer.render output is executed in an empty namespace and the bound variable compared structurally (exact types, NaN-aware)."),
         note="the synthetic model module is importable while the source runs; equality is structural"),
     "C01": dict(
@@ -199,7 +202,7 @@ def main():
         "engines": [
             {"name": "E1", "path": "vmc/engine.py", "serves_properties": sorted(CHECKS), "kind_free_text": "stateless deviation-bounded explorer over harness choice points (hand-written, Python)"},
             {"name": "E2", "path": "vmc/props/c14.py + vmc/canon.py", "serves_properties": ["C14"], "kind_free_text": "explicit-state BFS over replayed operation histories with generic canonical state hashing"},
-            {"name": "E3", "path": "vmc/sched.py", "serves_properties": ["C19"], "kind_free_text": "controlled thread scheduler: sys.monitoring LINE events at shared-state lines, per-thread semaphore baton, dynamic write profile + AST scan"},
+            {"name": "E3", "path": "vmc/sched.py + vmc/procstate.py", "serves_properties": ["C19"], "kind_free_text": "controlled thread scheduler: sys.monitoring LINE events at shared-state lines, per-thread semaphore baton, dynamic write profile + AST scan; process-wide state discovered by a walk and restored before every execution"},
             {"name": "E4", "path": "vmc/setorder.py", "serves_properties": ["C04", "C12"], "kind_free_text": "import-time AST transform owning set iteration order (incl. results of set algebra) and id() as explorer choice points"},
             {"name": "E5", "path": "vmc/gmodel.py", "serves_properties": ["C01", "C03", "C04", "C08", "C09", "C10", "C15", "C18"], "kind_free_text": "grammar-walk generator of binding models as real dataclasses in synthetic modules"},
             {"name": "G-tree", "path": "vmc/gtree.py", "serves_properties": ["C07", "C08", "C11"], "kind_free_text": "generator of generic XML trees (explicit-prefix writer, self-checked with expat + libxml2)"},
